@@ -103,20 +103,17 @@ def obsSkip : St :=
     .cont))))
     .skip
 
-/-- what follows the `continue`: the two corner elevations, the observer-row buffer, the three events -/
-def cellEvents3 : St :=
-  elevCall "_calc_event_elev2$" "_calc_event_elev2$_calculate_event_row_col3$" 1 4
-  (elevCall "_calc_event_elev4$" "_calc_event_elev4$_calculate_event_row_col5$" (-1) 6
-  (.seq (dataWrite 4 5 6)
-  (posAng "_calc_event_pos6$" "_calculate_angle7$" 1
-  (appendE "rowcp6$"
-  (.seq countUp
-  (posAng "_calc_event_pos8$" "_calculate_angle9$" 0
-  (appendE "rowcp7$"
-  (.seq countUp
-  (posAng "_calc_event_pos10$" "_calculate_angle11$" (-1)
-  (appendE "rowcp8$"
-  countUp))))))))))
+/-- what follows the `continue`, from the back: the three events … -/
+def ev9 : St := posAng "_calc_event_pos10$" "_calculate_angle11$" (-1) (appendE "rowcp8$" countUp)
+def ev8 : St := .seq countUp ev9
+def ev7 : St := posAng "_calc_event_pos8$" "_calculate_angle9$" 0 (appendE "rowcp7$" ev8)
+def ev6 : St := .seq countUp ev7
+def ev5 : St := posAng "_calc_event_pos6$" "_calculate_angle7$" 1 (appendE "rowcp6$" ev6)
+/-- … the observer-row buffer … -/
+def ev4 : St := .seq (dataWrite 4 5 6) ev5
+/-- … the two corner elevations -/
+def ev3 : St := elevCall "_calc_event_elev4$" "_calc_event_elev4$_calculate_event_row_col5$" (-1) 6 ev4
+def cellEvents3 : St := elevCall "_calc_event_elev2$" "_calc_event_elev2$_calculate_event_row_col3$" 1 4 ev3
 
 /-- the body of `for j in range(n_cols)` -/
 def cellBody : St :=
